@@ -25,6 +25,7 @@
 import PsutilModel.Proofs.C18Code
 import PsutilModel.Proofs.C18Who
 import PsutilModel.Proofs.C18Num
+import PsutilModel.Proofs.C18Refused
 import PsutilModel.Model.C18Gen
 namespace Psutil.C18
 open Spec
@@ -963,6 +964,84 @@ theorem C18_empty_selects_all_eligible_with_holes (x : Ctx) :
   · obtain ⟨k', h1, h2, _⟩ := C18_py_empty_selects_all_eligible cfg cfg_good cfg_einval_is_valueError kLxc 7 stLxc x
       CpuForm.list (by decide) (by decide) rfl wf_lxc rfl
     rw [h1, h2]; decide
+
+/-! ### seeded round 5 (change C18-7): a get form the kernel REFUSES, with another readable source
+
+  "The get form returns what the kernel reports for that process." prlimit(2) on a process of another
+  user without CAP_SYS_RESOURCE is refused (EPERM), while `/proc/<pid>/limits` shows the same sixteen
+  pairs to everybody. Where the question is refused `Spec.expectP` is silent (its promise about sets is
+  about successful sets) — but an ANSWER of a get form must still be the kernel's value for that
+  resource of that process, wherever it is read; the only other honest outcome is the refusal passed
+  on (`Spec.refusedGetAnswers`, Spec/C18Refused.lean). `stepPyA alt` (Model/C18Alt.lean) is the call
+  with the alternative source `alt` (which row of the limits file answers for which resource);
+  the driver runs `stepPyA rlimitAlt cpuNumBits cfg routing`. -/
+
+/-- **proof obligation** on the fact `rlimitGetOtherSources`: no statement of `rlimit` (platform layer
+    and front end) hands back anything but the result of `resource.prlimit(self.pid, resource_)` -/
+theorem cfg_rlimit_get_single_source : AltSrc.ofCode Gen.C18.rlimitGetOtherSources = some none := by decide
+
+/-- **C18_refused_get_is_honest.** For every kernel, caller, fork history, context, process, every
+    one of the sixteen resources and every value the kernel may hold for them: a get form that the
+    kernel refuses to this caller yields one of the admissible results — the kernel's own value for
+    THAT resource of THAT process, or AccessDenied — and leaves the kernel as it was. (The code as it
+    is passes the refusal on.) -/
+theorem C18_refused_get_is_honest (og : Origin) (k : Kernel) (pid : Nat) (st : PState) (x : Ctx) (r : PyReq)
+    (as : List Out) (hpid : pid ≠ 0) (hst : k.procs pid = some st)
+    (h : Spec.refusedGetAnswersPy k pid st r = some as) :
+    (stepPyA rlimitAlt cpuNumBits cfg routing og k pid x r).1 ∈ as ∧
+      (stepPyA rlimitAlt cpuNumBits cfg routing og k pid x r).2 = k := by
+  have halt : rlimitAlt = none := by unfold rlimitAlt; rw [cfg_rlimit_get_single_source]; rfl
+  rw [halt, stepPyA_none, cfg_cpu_number_held_as_long, stepPyN_long, cfg_routing_direct, stepPyW_direct]
+  exact refused_get_honest cfg k pid st x r as hpid hst h
+
+/-- … and what it passes on is AccessDenied for that pid, for each of the sixteen resources -/
+theorem C18_refused_rlimit_get_raises_AccessDenied (og : Origin) (k : Kernel) (pid : Nat) (st : PState) (x : Ctx)
+    (rs : Scalar) (hpid : pid ≠ 0) (hst : k.procs pid = some st) (h0 : 0 ≤ rs.val) (h16 : rs.val < 16)
+    (hf : st.foreign = true) (hc : k.capResource = false) :
+    stepPyA rlimitAlt cpuNumBits cfg routing og k pid x (.rlimit rs none) = (.exc (.accessDenied pid), k) := by
+  have halt : rlimitAlt = none := by unfold rlimitAlt; rw [cfg_rlimit_get_single_source]; rfl
+  rw [halt, stepPyA_none, cfg_cpu_number_held_as_long, stepPyN_long, cfg_routing_direct, stepPyW_direct]
+  exact stepPy_refused_get cfg x rs hpid hst h0 h16 hf hc
+
+/-- root's process 7 with sixteen different pairs, seen by a caller without CAP_SYS_RESOURCE -/
+def stRefused : PState := { stWitness with rlimits := fun r => (100 + r, 200 + r), foreign := true }
+def kRefused : Kernel :=
+  { kWitness with capResource := false, procs := fun q => if q = 7 then some stRefused else none }
+
+/-- the limits file read through a table whose RLIMIT_RTTIME entry names the RLIMIT_RTPRIO row -/
+def altSlip : AltSrc := some [0, 1, 2, 3, 4, 5, 6, 7, 8, 9, 10, 11, 12, 13, 14, 14]
+
+/-- **why the source matters** (seeded C18-7 and its relatives). Answering a refused `rlimit(res)` from
+    `/proc/<pid>/limits` is honest when every resource is read from its own row (`altIdentity`); with
+    one entry of the table pointing at a neighbouring row, `rlimit(RLIMIT_RTTIME)` returns
+    RLIMIT_RTPRIO's pair (114, 214) where the kernel holds (115, 215) — an answer that is not among the
+    admissible ones — while the fifteen other resources, the permitted caller and the code as it is
+    (AccessDenied) show nothing: only a refused get of that one resource on a process whose rows
+    differ tells the two apart. -/
+theorem C18_refused_get_wrong_row_counterexample :
+    Spec.refusedGetAnswersPy kRefused 7 stRefused (.rlimit (.int 15) none)
+      = some [.ok (.limits 115 215), .exc (.accessDenied 7)] ∧
+    (stepPyA altSlip 64 cfg Routing.direct ⟨1, 1⟩ kRefused 7 ⟨0, none⟩ (.rlimit (.int 15) none)).1 = .ok (.limits 114 214) ∧
+    (stepPyA altIdentity 64 cfg Routing.direct ⟨1, 1⟩ kRefused 7 ⟨0, none⟩ (.rlimit (.int 15) none)).1
+      = .ok (.limits 115 215) ∧
+    (stepPyA none 64 cfg Routing.direct ⟨1, 1⟩ kRefused 7 ⟨0, none⟩ (.rlimit (.int 15) none)).1 = .exc (.accessDenied 7) ∧
+    (stepPyA altSlip 64 cfg Routing.direct ⟨1, 1⟩ kRefused 7 ⟨0, none⟩ (.rlimit (.int 14) none)).1 = .ok (.limits 114 214) ∧
+    (stepPyA altSlip 64 cfg Routing.direct ⟨1, 1⟩ { kRefused with capResource := true } 7 ⟨0, none⟩
+      (.rlimit (.int 15) none)).1 = .ok (.limits 115 215) ∧
+    Spec.refusedGetAnswersPy { kRefused with capResource := true } 7 stRefused (.rlimit (.int 15) none) = none := by
+  decide
+
+/-- **C18_refused_get_own_row_is_honest.** Reading each resource from its own row IS honest, for every
+    kernel and every value: the file shows what the kernel holds. -/
+theorem C18_refused_get_own_row_is_honest (og : Origin) (k : Kernel) (pid : Nat) (st : PState) (x : Ctx) (rs : Scalar)
+    (as : List Out) (hpid : pid ≠ 0) (hst : k.procs pid = some st)
+    (h : Spec.refusedGetAnswersPy k pid st (.rlimit rs none) = some as) :
+    (stepPyA altIdentity cpuNumBits cfg routing og k pid x (.rlimit rs none)).1 ∈ as ∧
+      (stepPyA altIdentity cpuNumBits cfg routing og k pid x (.rlimit rs none)).2 = k :=
+  refused_get_own_row_honest cfg cfg_cpu_number_held_as_long cfg_routing_direct og k pid st x rs as hpid hst h
+
+example : stRefused.foreign = true ∧ kRefused.capResource = false ∧ kRefused.procs 7 = some stRefused ∧
+    Spec.permitted kRefused stRefused (.rlimit 15 none) = false := ⟨rfl, rfl, rfl, by decide⟩
 
 /-! ### the hypotheses are satisfiable -/
 
